@@ -561,7 +561,7 @@ impl Prop for C16 {
     fn meta(&self) -> Meta {
         Meta {
             level: "exploration",
-            rule: "seeded strings of 0..24 bytes over {space, tab, CR, LF, 'a', 'p', 0x80} x start offset (0..len+1) x helper in {tabs_or_spaces, newline, next_newline, fixed} x (for fixed) pattern in {empty, prefix of the input at the offset, proper extension of the remaining input, mismatch at position i, random} x amount of pre-buffered data x read plan (incl. chunk 1 / one byte per read, under which delivered bytes == requested bytes); oracle = reference scanner on the full string; request-minimality is read off the source log: every read() issued during the call must have been issued while fewer than `need` bytes of the stream were buffered; non-trivial iff the helper had to look at at least one byte; distinct = distinct (helper, string, offset, pattern, pre-buffered amount)",
+            rule: "seeded strings of 0..24 bytes over {space, tab, CR, LF, 'a', 'p', 0x80} plus the +-1 / high-bit neighbours of those bytes and occasional arbitrary bytes x start offset (0..len+1) x helper in {tabs_or_spaces, newline, next_newline, fixed} x (for fixed) pattern in {empty, prefix of the input at the offset, proper extension of the remaining input, mismatch at position i, random} x amount of pre-buffered data x read plan (incl. chunk 1 / one byte per read, under which delivered bytes == requested bytes); oracle = reference scanner on the full string; request-minimality is read off the source log: every read() issued during the call must have been issued while fewer than `need` bytes of the stream were buffered; non-trivial iff the helper had to look at at least one byte; distinct = distinct (helper, string, offset, pattern, pre-buffered amount)",
             assumptions: vec![
                 "the small space is sampled, not enumerated; the evidence reports the number of distinct (helper, string, offset, pattern) tuples reached",
             ],
@@ -589,7 +589,16 @@ impl Prop for C16 {
             2 => b"aaap \n\r\x80",
             _ => b"app \n\r\t\x80",
         };
-        let data: Vec<u8> = (0..len).map(|_| *rng.pick(alpha)).collect();
+        // neighbours (+-1, high bit) of the bytes the helpers look for, and now and then any byte:
+        // word-at-a-time tricks typically go wrong exactly there
+        const NEAR: &[u8] = b"\x08\x0b\x0c\x0e\x1f\x21\x89\x8a\x8d\xa0\x00\xff";
+        let data: Vec<u8> = (0..len)
+            .map(|_| match rng.below(12) {
+                0 => *rng.pick(NEAR),
+                1 if rng.chance(1, 2) => rng.next_u64() as u8,
+                _ => *rng.pick(alpha),
+            })
+            .collect();
         let offset = if rng.chance(1, 10) {
             len + rng.below(3)
         } else {
